@@ -96,15 +96,12 @@ Print Assumptions C19_current_file_is_top.
 Import Coq.Init.Byte.
 Definition ex_magic : bytes := [xfa; xbf; xb5; xda].
 Theorem C19_stream_preserved_beyond_100000_refuted :
-  exists fs blocks, Forall (fun n => (n <= 100000)%N) (keys fs) /\ blocks_ok blocks /\
-    lex_ltb (blk_name 100000) (blk_name 99999) = true /\ current_file fs = 99999%N /\
-    read_all (snd (write_blocks 100 ex_magic fs blocks)) <> read_all fs ++ records ex_magic blocks.
-Proof.
-  exists [(99999%N, repeat x01 50); (100000%N, repeat x02 50)], [[xaa]].
-  split; [repeat constructor; cbv; discriminate|]. split; [repeat constructor|].
-  split; [exact name_order_fails_at_100000|]. split; [vm_compute; reflexivity|].
-  vm_compute. intros H. discriminate H.
-Qed.
+  let fs := [(99999%N, repeat x01 50); (100000%N, repeat x02 50)] in
+  let blocks := [[xaa]] in
+  Forall (fun n => (n <= 100000)%N) (keys fs) /\ lex_ltb (blk_name 100000) (blk_name 99999) = true /\
+  current_file fs = 99999%N /\
+  read_all (snd (write_blocks 100 ex_magic fs blocks)) <> read_all fs ++ records ex_magic blocks.
+Proof. exact beyond_100000_refuted. Qed.
 Print Assumptions C19_stream_preserved_beyond_100000_refuted.
 
 (* the premise of C19_size_bound is necessary: a record longer than the limit is written to a fresh file whole
@@ -133,7 +130,11 @@ Example C19_ex_history :
     ; (blk_name 2, record ex_magic b4) ]
   /\ room (history 30 ex_magic [] [[b4; b4; b4]; []; [b10]; [b4]]) 1000
   /\ current_file (map (fun i => (N.of_nat i, [x00])) (seq 0 12)) = 11%N.
-Proof. vm_compute. repeat split; try reflexivity; intros; repeat (destruct H as [<-|H]; [reflexivity|]); destruct H. Qed.
+Proof.
+  cbv zeta. split; [vm_compute; reflexivity|]. split; [|vm_compute; reflexivity].
+  split; [vm_compute; reflexivity|]. intros n Hn. vm_compute in Hn.
+  repeat (destruct Hn as [<-|Hn]; [vm_compute; reflexivity|]). destruct Hn.
+Qed.
 
 (* crash after 4 operations of the first batch above (Open 0; Write; Write; Close | Open 1 ...): two records on disk *)
 Example C19_ex_crash :
